@@ -363,8 +363,12 @@ def run_case(lf, table, scratch, cats=False):
         # numpy 'S' arrays drop trailing NUL bytes: a FIXED_LEN_BYTE_ARRAY value ending in 0x00 comes back shorter (known finding)
         nul = l["type"] == 7 and l["tag"] == "flba" and bad and all(
             isinstance(e, dict) and isinstance(g, bytes) and bytes.fromhex(e["b"]).rstrip(b"\0") == g for _, e, g in bad)
+        # DATE is converted through datetime64[ns]: a day outside 1677-09-22 .. 2262-04-11 wraps around silently (known finding)
+        def _sd(x):
+            return x - (1 << 32) if isinstance(x, int) and x >> 31 else x
+        far = l["tag"] == "date" and bad and all(isinstance(e, int) and abs(_sd(e)) > 106751 for _, e, g in bad)
         for i, e, g in bad[:2]:
-            res["problems"].append(("flba-trailing-nul" if nul else "decode",
+            res["problems"].append(("flba-trailing-nul" if nul else "date-beyond-ns-range" if far else "decode",
                                     "column %s (%s) row %d: file encodes %r, fastparquet returns %r" % (l["name"], l["tag"], i, e, g)))
     if res["problems"]:
         res["outcome"] = "differs"
